@@ -147,7 +147,7 @@ def check(repo: Repo, run: Run) -> None:
             if t.op == "bin" and t.a[0] == "+":
                 split(t.a[1])
                 split(t.a[2])
-            else:
+            elif not (t.op in ("list", "tuple") and not t.a[0]):        # `[] + ...`: the empty start of an accumulation
                 parts.append(t)
         split(lst.a[1][0])
         names = {}
@@ -173,6 +173,7 @@ def check(repo: Repo, run: Run) -> None:
     M = e.module.name
     f = {k: normal.normalise(d.rec, v) for k, v in d.ret.a[1]} if d.ret.op == "new" else {}
     sw = f.get("sample_what")
+    undecided = []
     SA = "pykdebugparser.trace_handlers.perf.SamplerAction"
     for fld, flag, rec_name in (("th_info", "SAMPLER_TH_INFO", "PERF_THD_Data"), ("cs_frames", "SAMPLER_USTACK", "PERF_STK_UHdr"),
                                 ("cs_flags", "SAMPLER_USTACK", "PERF_STK_UHdr")):
@@ -185,12 +186,17 @@ def check(repo: Repo, run: Run) -> None:
             sel = named_selection(c2, rec_name)
             uses = sel is not None and sym.contains(val, sel[1])
             ok = ok_flag and sel is not None and uses
+        if not ok and v is not None and any(x.op in ("widen", "unknown") or (x.op == "call" and x.a[0].op == "func")
+                                            for x in sym.walk(v)):
+            undecided.append(f"{fld} is computed through an intermediate structure that is not reduced to selections of the window's "
+                             f"records: {sym.pretty(v)[:100]}")
+            continue
         run.ob("R3", M, e.func_name, f"{fld} exactly when {flag} is requested and a {rec_name} record is present", ok,
                "" if ok else f"{fld} is not `<decode of the window's {rec_name} records> if {flag} in sample_what and such a record "
                              f"exists else None`", facts={"term": sym.pretty(v)[:240] if v is not None else None}, line=e.func.lineno)
     # the flags word is START word 0
-    ok = sw is not None and sw.op == "comp" and any(x == T("sub", (T("attr", (T("sub", (EVENTS, const(0))), "values")), const(0)))
-                                                    for x in sym.walk(sw))
+    ok = sw is not None and any(x == T("sub", (T("attr", (T("sub", (EVENTS, const(0))), "values")), const(0)))
+                                for x in sym.walk(sym.resolve_widens(d.rec, sw)))
     run.ob("R3", M, e.func_name, "sampler flags decoded from START word 0", ok,
            "sample_what is not decoded from events[0].values[0]", nontrivial=False)
     # defaults are None
@@ -200,3 +206,5 @@ def check(repo: Repo, run: Run) -> None:
     run.ob("R3", M, "PerfEvent", "optional parts default to None", okd,
            "PerfEvent.th_info / cs_flags / cs_frames do not default to None: header-less or flag-less samples carry stale data",
            nontrivial=False)
+    if undecided:
+        run.floor_failures.append("C20/R3: " + undecided[0] + (f" (+{len(undecided) - 1} more)" if len(undecided) > 1 else ""))
